@@ -464,6 +464,86 @@ def lazy_cases(ctx):
     return cases
 
 
+# ---- callback traces: every callback prints (argument * 100 + tag) when it is called; the printed lines must be those of a maximally
+# lazy pipeline, in order: an adaptor that keeps calling its predicate after it has decided, or calls it for an element that is dropped,
+# shows as extra lines
+
+def is_subseq(a, b):
+    it = iter(b)
+    return all(any(x == y for y in it) for x in a)
+
+
+def _tr(trace, tag, x):
+    trace.append(x * 100 + tag)
+    return x
+
+
+TRACE_STAGES = [
+    ("map", ".map((x: int)->{{ div_floor(display(x * 100 + {T}), 100) + 1 }})", lambda it, tr, T: (_tr(tr, T, x) + 1 for x in it)),
+    ("filter", ".filter((x: int)->{{ div_floor(display(x * 100 + {T}), 100) % 3 != 0 }})", lambda it, tr, T: (x for x in it if _tr(tr, T, x) % 3 != 0)),
+    ("take_while", ".take_while((x: int)->{{ div_floor(display(x * 100 + {T}), 100) < 14 }})", lambda it, tr, T: itertools.takewhile(lambda x: _tr(tr, T, x) < 14, it)),
+    ("skip_until", ".skip_until((x: int)->{{ div_floor(display(x * 100 + {T}), 100) > 3 }})", lambda it, tr, T: _skip_until(it, lambda x: _tr(tr, T, x) > 3)),
+    ("aggregate", ".aggregate(0, (s: int, x: int)->{{ s + div_floor(display(x * 100 + {T}), 100) }})", lambda it, tr, T: aggregate(it, 0, lambda s_, x: s_ + _tr(tr, T, x))),
+    ("skip", ".skip(2)", lambda it, tr, T: itertools.islice(it, 2, None)),
+    ("take", ".take(9)", lambda it, tr, T: itertools.islice(it, 9)),
+]
+TRACE_CONSUMERS = [
+    ("take_to_array", ".take({K}).to_array().len()", lambda it, tr, T, K: len(list(itertools.islice(it, K)))),
+    ("to_array", ".to_array().len()", lambda it, tr, T, K: len(list(it))),
+    ("first", ".first((x: int)->{{ div_floor(display(x * 100 + {T}), 100) > {K} }}).has_value().if(1, 0)", lambda it, tr, T, K: 1 if any(_tr(tr, T, x) > K for x in it) else 0),
+    ("any", ".any((x: int)->{{ div_floor(display(x * 100 + {T}), 100) > {K} }}).if(1, 0)", lambda it, tr, T, K: 1 if any(_tr(tr, T, x) > K for x in it) else 0),
+    ("all", ".all((x: int)->{{ div_floor(display(x * 100 + {T}), 100) < {K} }}).if(1, 0)", lambda it, tr, T, K: 1 if all(_tr(tr, T, x) < K for x in it) else 0),
+    ("count", ".count((x: int)->{{ div_floor(display(x * 100 + {T}), 100) > {K} }})", lambda it, tr, T, K: sum(1 for x in it if _tr(tr, T, x) > K)),
+    ("nth", ".nth(1, (x: int)->{{ div_floor(display(x * 100 + {T}), 100) > {K} }}).has_value().if(1, 0)", lambda it, tr, T, K: 1 if len(list(itertools.islice((x for x in it if _tr(tr, T, x) > K), 2))) == 2 else 0),
+    ("get", ".get({K})", None),
+    ("last", ".last()", None),
+]
+
+
+def _skip_until(it, pred):
+    found = False
+    for x in it:
+        if not found and pred(x):
+            found = True
+        if found:
+            yield x
+
+
+def trace_cases(ctx):
+    rng = ctx.rng
+    cases = []
+    for n in range(ctx.pick(250, 5000)):
+        stages = [rng.choice(TRACE_STAGES) for _ in range(rng.randint(1, 4))]
+        cname, ctmpl, cfn = rng.choice(TRACE_CONSUMERS)
+        K = rng.choice([0, 1, 2, 3, 5, 8])
+        tr = []
+        it = iter(range(22))
+        pipe = "range(22).to_generator()"
+        for i, (_, st, f) in enumerate(stages):
+            it = f(it, tr, i + 1)
+            pipe += st.format(T=i + 1)
+        T = len(stages) + 1
+        try:
+            if cname == "get":
+                xs = list(itertools.islice(it, K + 1))
+                if len(xs) <= K:
+                    continue
+                want = xs[K]
+            elif cname == "last":
+                xs = list(it)
+                if not xs:
+                    continue
+                want = xs[-1]
+            else:
+                want = cfn(it, tr, T, K)
+        except Exception:
+            continue
+        src = f"let r = {pipe}{ctmpl.format(T=T, K=K)};"
+        cases.append({"id": f"C16-trace{n}", "source": src, "exports": ["r"], "dump": {"per": 8, "nodes": 50},
+                      "meta": {"stages": [s_ for s_, _, _ in stages], "consumer": cname, "K": K, "want": want, "trace": [str(t) for t in tr]}})
+    return cases
+
+
 def run(ctx):
     ctx.canary()
     rng = ctx.rng
@@ -541,12 +621,38 @@ def run(ctx):
                                                             "observed": {"pulls": pulls, "raw": out.get("raw"), "kind": out.get("kind")}})
     samples = [{"history": [f"let {x['name']} = {x['src']};" for x in h], "observed": [o.get("raw") for o in outs]}
                for h, outs in list(zip(histories, results))[:2]]
+    # ---- callback traces
+    tcases = trace_cases(ctx)
+    tobs = ctx.run(tcases, name="C16_trace")
+    trace_ok = 0
+    for c, o in zip(tcases, tobs):
+        total += 1
+        meta = c["meta"]
+        fail = batch.program_failure(o)
+        culprit = ">".join(meta["stages"]) + ">" + meta["consumer"]
+        if fail is not None:
+            if fail["kind"] == "inconclusive":
+                ctx.verdicts.inconclusive_case(str(fail)[:200], c)
+            else:
+                ctx.verdicts.violation(f"trace|{culprit}|{fail['kind']}", c, {"expected": meta, "observed": fail})
+            continue
+        got = [l for l in (o.get("output") or "").split("\n") if l != ""]
+        out = batch.binding_outcome(o["bindings"].get("r"))
+        if not batch.matches(meta["want"], out):
+            ctx.verdicts.violation(f"trace|{culprit}|value_differs", c, {"step": c["source"], "expected": meta["want"], "observed": out.get("raw")})
+            continue
+        if got == meta["trace"]:
+            trace_ok += 1
+            ok += 1
+            continue
+        what = "extra_callback_evaluations" if got[:len(meta["trace"])] == meta["trace"] or is_subseq(meta["trace"], got) else "callback_order_or_missing_evaluations"
+        ctx.verdicts.violation(f"trace|{culprit}|{what}", c, {"step": c["source"], "expected": meta["trace"], "observed": got})
     samples.append({"lazy_case": lcases[0]["source"], "needed": lcases[0]["meta"]["needed"], "output": lobs[0].get("output")})
     cov = {"evaluations": total, "distinct_nontrivial": len(distinct_h) + len({c["source"] for c in lcases}),
            "rule": "one evaluation = one step of a generated generator history (derived generator, dumped = consumed again, or a consumer) "
                    "or one laziness case (source elements pulled, seen as display lines, vs the number a maximally lazy Python pipeline pulls); "
                    "distinct = distinct history / case texts",
-           "samples": samples, "agreeing": ok, "histories": len(histories), "laziness_cases": len(lcases), "laziness_ok": lazy_ok,
+           "samples": samples, "agreeing": ok, "histories": len(histories), "laziness_cases": len(lcases), "laziness_ok": lazy_ok, "callback_trace_cases": len(tcases), "callback_traces_ok": trace_ok,
            "max_pull_excess_over_lazy_model": max_excess, "operations": ops, "representations_seen": reprs, "adaptor_pairs": pairs}
     return {"coverage": cov, "broken": None if ok > 0 and total > 100 else "nothing agreed",
             "assumptions": [f"first {PER} elements of a dumped generator are compared; a model stream longer than {CAP} elements is treated as infinite",
